@@ -711,7 +711,8 @@ class SGen(object):
     out.append('%sdef %s(%s)%s:' % (ind, name, params, ret))
     ind2 = ind + '  '
     declared = set()
-    if self.r.random() < 0.25:
+    ndecl0 = len(out)
+    if self.r.random() < (0.6 if 'decl_in_blocks' in self.features else 0.25):
       g = [v for v in self.r.sample(POOL + GLOB, 2) if v not in pset][:self.r.choice([1, 2])]
       if g:
         out.append('%sglobal %s' % (ind2, ', '.join(g)))
@@ -725,6 +726,24 @@ class SGen(object):
       if cands:
         nl = self.r.sample(cands, min(len(cands), self.r.choice([1, 1, 2])))
         out.append('%snonlocal %s' % (ind2, ', '.join(nl)))
+    if 'decl_in_blocks' in self.features and len(out) > ndecl0:
+      # opt-in family: the declarations sit in the body (or orelse) block of an if / while / for statement at the head
+      # of the function -- CPython applies them to the whole function wherever they stand
+      decls = ['  ' + l for l in out[ndecl0:]]
+      del out[ndecl0:]
+      k = self.r.randint(0, 5)
+      cond = self.name()
+      hdr = ['if %s:' % cond, 'while %s:' % cond, 'for _it in %s:' % cond][k % 3]
+      filler = ['%s  pass' % ind2]
+      if k < 3:
+        out += ['%s%s' % (ind2, hdr)] + decls + ['%selse:' % ind2] + filler
+      else:
+        out += ['%s%s' % (ind2, hdr)] + filler + ['%selse:' % ind2] + decls
+      if self.r.random() < 0.5:
+        # one more level: the whole statement nested in an if body
+        blk = out[ndecl0:]
+        del out[ndecl0:]
+        out += ['%sif %s:' % (ind2, cond)] + ['  ' + l for l in blk]
     body = self.block(ind2, depth + 1, False, False, n=self.r.randint(2, 5))
     out += body
     self.fstack.pop()
@@ -1395,6 +1414,8 @@ def main():
 
   # ---- clause 1
   items = [(i, a.seed * 1000003 + i, features) for i in range(nstatic)]
+  # extra block (own seeds, default stream untouched): global / nonlocal declarations inside if / while / for blocks
+  items += [(nstatic + i, a.seed * 1000003 + 500000 + i, features + ('decl_in_blocks',)) for i in range(nstatic // 6)]
   nfunc = 0
   nskipped = 0
   distinct = set()
